@@ -15,7 +15,7 @@ from . import rules
 from .build import AnalysisBroken
 from .locks import operands
 
-PARTITIONS = 12
+PARTITIONS = 48
 INF = float("inf")
 
 
@@ -268,7 +268,7 @@ class FunctionAnalysis:
         key = a[1]
         return self.E.expr_ranges.get(key, (-INF, INF))
 
-    def iv_lf(self, lf, st, ty=None, raw=None):
+    def iv_lf(self, lf, st, ty=None, raw=None, depth=0):
         if lf is None:
             return (-INF, INF)
         lo = hi = lf.k
@@ -295,11 +295,13 @@ class FunctionAnalysis:
                 rest = dict(lf.t)
                 for a, c in fk:
                     rest[a] = rest.get(a, 0) - m * c
-                for a, c in rest.items():
-                    if c == 0:
-                        continue
-                    iv = self.atom_iv(a, st)
-                    r_hi += c * (iv[1] if c > 0 else iv[0])
+                rest = {a: c for a, c in rest.items() if c != 0}
+                if depth < 2 and rest:
+                    r_hi = self.iv_lf(LF(lf.k, rest), st, depth=depth + 1)[1]
+                else:
+                    for a, c in rest.items():
+                        iv = self.atom_iv(a, st)
+                        r_hi += c * (iv[1] if c > 0 else iv[0])
                 if m * ub + r_hi < hi:
                     hi = m * ub + r_hi
                 # the same fact read as a lower bound of -f:  lf = -m*(-f) ...: handled by the facts stored for the negated form
@@ -322,7 +324,7 @@ class FunctionAnalysis:
                 for a, c in rest.items():
                     if c == 0:
                         continue
-                    iv = self.atom_iv(a, st)
+                    iv = self.atom_iv(a, st) if depth >= 2 else self.iv_lf(LF(0, {a: 1}), st, depth=depth + 1)
                     r_hi += c * (iv[1] if c > 0 else iv[0])
                 if -(m * ub + r_hi) > lo:
                     lo = -(m * ub + r_hi)
@@ -435,8 +437,29 @@ class FunctionAnalysis:
                 e2 = e.scale(-1)
                 st.facts[e2.key()] = min(st.facts.get(e2.key(), INF), -e2.k)
         else:
-            # store through a pointer: kills facts on opaque memory expressions
-            self.kill(st, lambda a: a[0] == "expr")
+            # store through a pointer: kills facts on memory expressions that may live in the written object
+            tgt = self._base_object(inst["ptr"])
+            if tgt is not None:
+                self.kill(st, lambda a: a[0] == "expr" and rules.key_mentions(a[1], lambda k: k[0] == tgt[0] and k[1] == tgt[1]))
+            else:
+                self.kill(st, lambda a: a[0] == "expr")
+
+    def _base_object(self, o):
+        """('alloca', id) / ('g', name) of the object a pointer operand points into, if it is a named object"""
+        for _ in range(8):
+            o = rules.strip_casts(self.fn, o)
+            if o.get("k") == "global":
+                return ("g", o["name"])
+            i = self.fn.resolve(o)
+            if i is None:
+                return None
+            if i.op == "alloca":
+                return ("alloca", i.id)
+            if i.op == "getelementptr":
+                o = i["base"]
+            else:
+                return None
+        return None
 
     def call(self, inst, st):
         callee = inst.callee
@@ -609,6 +632,38 @@ class FunctionAnalysis:
         back = st._from is not None and st._from in self.fn.natural_loop_of(head)
         return (back,) + tuple(sorted((c, v[0]) for c, v in st.cells.items() if v[0] == v[1] and c in self._part_cells))
 
+    def _entry_difference_facts(self, head, st):
+        """on first entry to a loop: for every cell x the loop writes that holds a constant vx, record x - y <= vx - lo(y) and
+        y - x <= hi(y) - vx for the cells y the loop reads or writes; these facts are shifted by the stores in the body and so become
+        inductive invariants of counting loops (e.g. filled <= i + 1, i <= n)"""
+        body = self.fn.natural_loop_of(head)
+        written, used = set(), set()
+        for b in body:
+            for i in self.fn.bmap[b].insts:
+                if i.op == "store":
+                    c = self.cell_of_ptr(i["ptr"])
+                    if c is not None:
+                        written.add(c)
+                elif i.op == "load":
+                    c = self.cell_of_ptr(i["ptr"])
+                    if c is not None:
+                        used.add(c)
+        for x in written:
+            vx = st.cells.get(x)
+            if vx is None or vx[0] != vx[1]:
+                continue
+            for y in (written | used):
+                if y == x:
+                    continue
+                vy = st.cells.get(y, self.cell_type_range(y))
+                ax, ay = ("cell",) + x, ("cell",) + y
+                if vy[0] > -INF:
+                    k = LF(0, {ax: 1, ay: -1}).key()
+                    st.facts[k] = min(st.facts.get(k, INF), vx[0] - vy[0])
+                if vy[1] < INF:
+                    k = LF(0, {ay: 1, ax: -1}).key()
+                    st.facts[k] = min(st.facts.get(k, INF), vy[1] - vx[0])
+
     def widen(self, old, new):
         c = {}
         for k in set(old.cells) & set(new.cells):
@@ -673,6 +728,8 @@ class FunctionAnalysis:
                             continue
                         j2._from = j._from
                         j = j2
+                    if old is None and gk and not gk[0]:
+                        self._entry_difference_facts(bid, j)
                     head_state[(bid, gk)] = j
                     changed_any = True
                 if not changed_any:
